@@ -426,6 +426,27 @@ Spans of submodels differ:
         if submodels is None:
             submodels = list(self.__dict__['submodels'].keys())
 
+        # Error if `offset` points outside the current linker span (as in
+        # `BaseModel.solve_t()`): check before making any changes
+        if offset:
+            t_check = t
+            if t_check < 0:
+                t_check += len(self.span)
+
+            if t_check + offset < 0:
+                raise IndexError(
+                    f'`offset` argument ({offset}) for position `t` ({t}) '
+                    f'implies a period before the span of the current linker instance: '
+                    f'{offset} + {t} -> position {offset + t_check} < 0'
+                )
+
+            if t_check + offset >= len(self.span):
+                raise IndexError(
+                    f'`offset` argument ({offset}) for position `t` ({t}) '
+                    f'implies a period beyond the span of the current linker instance: '
+                    f'{offset} + {t} -> position {offset + t_check} >= {len(self.span)} periods in span'
+                )
+
         def get_check_values() -> Dict[Hashable, np.ndarray]:
             """Return NumPy arrays of variable values for the current period, for checking."""
             check_values = {
@@ -452,6 +473,19 @@ Spans of submodels differ:
                 raise KeyError(f"'{name}' not found in list of submodels") from e
 
             submodel.iterations[t] = 0
+
+        # Optionally copy initial values from another period, for the linker
+        # and the selected submodels
+        if offset:
+            for name in self.endogenous:
+                self.__dict__['_' + name][t] = self.__dict__['_' + name][t + offset]
+
+            for name in submodels:
+                submodel = self.__dict__['submodels'][name]
+                for variable in submodel.endogenous:
+                    submodel[variable][t] = submodel[variable][t + offset]
+
+            current_values = get_check_values()
 
         # Run any code prior to solution
         self.solve_t_before(
